@@ -33,6 +33,9 @@ CHECKS = {
  "C08": dict(tech="TLC trace validation of abandon/misuse histories against AbsTxn.tla + TLC invariant NoTrace on Txn.tla",
     text="Scripts abandon a seeded fraction of transactions at every point (Discard, failing Update closure, conflict) between commits, flusher stages and reopens and issue every misuse call; values identify the writing transaction, so any leaked write is a value the contract never committed; misuse answers are fixed by the contract.",
     note="sampling of abandon points; misuse calls issued one condition at a time"),
+ "C13": dict(tech="TLC model checking of Watermark.tla (safety + liveness under fairness) + TLC trace validation of real WaterMark executions with silent channel/consumer steps",
+    text="Watermark.tla mirrors the code (bounded FIFO channel, pending map, heap, consumer Take/Store/Wake, waiters); TLC checks Monotone, NeverPasses (on the FIFO-linearised history), CatchesUp, WaitSound, WaitLive and the liveness form under weak fairness, with four deviation switches as self-test. Every call sequence up to length 3 (thorough 4) over 3 indices, random longer sequences and concurrent drivers are executed on the real WaterMark; each recorded execution (calls, returns, DoneUntil observations, quiescence) is validated by TLC against the same module.",
+    note="bounded model (<=3 clients, 3 indices, <=6 calls); readings fixed in DESIGN.md section 6 C13 (lag, a Done finishes an earlier Begin); 'eventually' observations use the consumer's hook count, timeouts >= 3 s"),
  "C12": dict(tech="TLC trace validation of concurrent histories produced under the Go race detector (sensor for the lock discipline)",
     text="Concurrent scenarios (thresholds down to 1 byte, queue length 0..4, seeded delays at hook points) run in a harness built with -race; a race report or panic is a violation, and every recorded history must be accepted by AbsTxn.tla.",
     note="the memory-model clause is decided by the race detector for the schedules executed, not for all schedules; TLA+ contributes the allowed-results oracle"),
